@@ -270,7 +270,8 @@ fn c18(plan: &Plan, out: &RunOut, vs: &mut Vec<Violation>) {
         vs.push(v(p, "c18.entry_evicted", format!("{evicted} eviction events in a run without capacity pressure"), ""));
     }
     for (i, c) in out.end.clients.iter().enumerate() {
-        if c.secrets_len != 1 || !c.contains_server {
+        // two ids per client: the pair test_insert_pair made and the plan-derived one that replaced it
+        if c.secrets_len != 2 || !c.contains_server {
             vs.push(v(p, "c18.map_changed", format!("client {i} map: secrets_len={} contains(server)={}", c.secrets_len, c.contains_server), ""));
         }
         match c.next_key_id {
@@ -278,7 +279,7 @@ fn c18(plan: &Plan, out: &RunOut, vs: &mut Vec<Violation>) {
             other => vs.push(v(p, "c18.key_id_jump", format!("client {i}: next key id {other:?} after {} streams", c.streams_opened), "")),
         }
     }
-    let expect_server = if plan.family == "forge_forget" && out.vanish_t_ns.is_some() { 0 } else { plan.clients.len() };
+    let expect_server = if plan.family == "forge_forget" && out.vanish_t_ns.is_some() { 0 } else { 2 * plan.clients.len() };
     if out.end.server_secrets_len != expect_server {
         vs.push(v(p, "c18.map_changed", format!("server map secrets_len={} expected {expect_server}", out.end.server_secrets_len), ""));
     }
@@ -326,6 +327,7 @@ pub fn summarize(plan: &Plan, out: &RunOut) -> Summary {
         h.write(&[r.dir, r.fate, r.label, r.kind]);
         h.u64(r.ord);
         h.u64(r.len as u64);
+        h.u64(r.bytes_hash);
         h.write(r.src.to_string().as_bytes());
         h.write(r.dst.to_string().as_bytes());
     }
